@@ -29,6 +29,7 @@ from typing import Any, Dict, List, Optional, Tuple
 from ..core import Ctx, MachineryError, chunks, load_known_findings
 
 BAD, CYCLIC = [0], [0, 0]
+IFACE = 99          # MRO.tla IFACE: the member as declared by the interface I
 INVARIANTS = ["MroIsC3", "InconsistentReported", "RefLaws", "FindIsLookup", "SourcesAreOverridden", "DocIsInherited",
               "EarlyIsLookupOrKF"]
 KF_EARLY = "early-lookup-depth-first"
@@ -97,9 +98,14 @@ def render_case(h: int, rec: Dict[str, Any]) -> Dict[str, Any]:
     if lay["kind"] == "single":
         lines: List[str] = []
         where: Dict[int, Tuple[Optional[str], str, int]] = {}
+        impl = set((rec.get("lay") or {}).get("impl") or [])
+        if impl:            # an interface that declares and documents the member
+            lines += [f"class I{h}(Interface):", "    def f():", f'        """doc of I{h}"""']
         for c in range(1, n + 1):
             bs = [cname(b) + ("[int]" if subscripted(h, c, j) else "") for j, b in enumerate(bases[c - 1])]
-            where[c] = (None, cname(c), len(lines) + 1)
+            where[c] = (None, cname(c), len(lines) + 1)          # a decorated class is located at its first decorator
+            if c in impl:
+                lines.append(f"@implementer(I{h})")
             lines.append(f"class {cname(c)}({', '.join(bs)}):" if bs else f"class {cname(c)}:")
             lines += body_lines(cname(c), member[c - 1], nested=(early == "nested"))
         # early dotted lookups through every class Python can look the member up in, AFTER the class statements:
@@ -123,6 +129,26 @@ def render_case(h: int, rec: Dict[str, Any]) -> Dict[str, Any]:
             lines += body_lines(cname(c), member[c - 1])
             mods.append((mn, lines))
         return {"modules": mods, "where": where}
+    if lay["kind"] == "split":
+        # two modules importing each other (MRO.tla Source "split"): A = classes 1..sp ; import B ; classes sp+1..n-1,
+        # B = import A ; class n.  A is added first.
+        sp = rec["lay"]["split"]
+        a, b_ = f"sa{h}", f"sb{h}"
+        la: List[str] = []
+        where = {}
+        for c in range(1, n):
+            if c == sp + 1:
+                la.append(f"import {b_}")
+            bs = [cname(x) + ("[int]" if subscripted(h, c, j) else "") for j, x in enumerate(bases[c - 1])]
+            where[c] = (a, cname(c), len(la) + 1)
+            la.append(f"class {cname(c)}({', '.join(bs)}):" if bs else f"class {cname(c)}:")
+            la += body_lines(cname(c), member[c - 1])
+        if sp + 1 >= n:
+            la.append(f"import {b_}")
+        bs = [f"{a}.{cname(x)}" + ("[int]" if subscripted(h, n, j) else "") for j, x in enumerate(bases[n - 1])]
+        lb = [f"import {a}", f"class {cname(n)}({', '.join(bs)}):" if bs else f"class {cname(n)}:"] + body_lines(cname(n), member[n - 1])
+        where[n] = (b_, cname(n), 2)
+        return {"modules": [(a, la), (b_, lb)], "where": where}
     if lay["kind"] == "late":
         # one class per module; the modules are ADDED in lay.order; module c = [`if TYPE_CHECKING: import x` when
         # lay.back = [c, x]] ; `import` of the bases' modules ; class ; early lookups.  Every import has the imported
@@ -264,7 +290,7 @@ def observe_batch(batch: List[Tuple[int, Dict[str, Any]]]) -> List[Dict[str, Any
             self.captured.append((section, msg))
 
     shared = "b%d" % batch[0][0]
-    shared_lines: List[str] = []
+    shared_lines: List[str] = ["from zope.interface import Interface, implementer"]
     modules: List[Tuple[str, List[str]]] = []
     wheres = []
     for h, rec in batch:
@@ -285,7 +311,7 @@ def observe_batch(batch: List[Tuple[int, Dict[str, Any]]]) -> List[Dict[str, Any
         wheres.append(where)
     system = S()
     builder = system.systemBuilder(system)
-    if shared_lines:
+    if len(shared_lines) > 1:
         builder.addModuleString("\n".join(shared_lines) + "\n", modname=shared)
     for mname, lines in modules:
         builder.addModuleString("\n".join(lines) + "\n", modname=mname)
@@ -307,6 +333,9 @@ def observe_batch(batch: List[Tuple[int, Dict[str, Any]]]) -> List[Dict[str, Any
         for c in range(1, n + 1):
             objs[c] = system.allobjects.get(f"{where[c][0]}.{where[c][1]}")
         idx = {id(o): c for c, o in objs.items() if o is not None}
+        iface = system.allobjects.get(f"{where[1][0]}.I{h}")
+        if iface is not None:
+            idx[id(iface)] = IFACE
         ix = lambda o: idx.get(id(o), -1) if o is not None else 0
         o_mro, o_warn, o_find, o_src, o_doc, o_doctext, o_inh, o_ovr, o_first, o_present = [], [], [], [], [], [], [], [], [], []
         for c in range(1, n + 1):
@@ -487,12 +516,14 @@ def evaluate_case(rec: Dict[str, Any], obs: Dict[str, Any]) -> Tuple[List[Tuple[
                 failed.append(("EarlyAliasIsLookup" if rec["early"] == "alias" else "EarlyBaseIsLookup", c,
                                rec["find_ref"][i], obs["early"][i]))
             if rec["member"][i] != "absent" and not nested:
-                if obs["src"][i] != rec["src_ref"][i]:
+                # an interface declaration is not on the MRO: it may only follow every definition along it
+                if [x for x in obs["src"][i] if x != IFACE] != rec["src_ref"][i] or IFACE in obs["src"][i][:-1]:
                     failed.append(("SourcesAreOverridden", c, rec["src_ref"][i], obs["src"][i]))
                 want_ov = rec["src_ref"][i][1] if len(rec["src_ref"][i]) > 1 else 0
                 if obs["overrides"][i] != want_ov:
                     failed.append(("OverridesNote", c, want_ov, obs["overrides"][i]))
-                if obs["doc"][i] != rec["doc_ref"][i]:
+                # ... and may only document the member when nothing along the MRO does
+                if obs["doc"][i] != rec["doc_ref"][i] and not (rec["doc_ref"][i] == 0 and obs["doc"][i] == IFACE):
                     failed.append(("DocIsInherited", c, rec["doc_ref"][i], obs["doc"][i]))
                 elif rec["doc_ref"][i]:
                     want_text = f"doc of K{obs['h']}_{rec['doc_ref'][i]}"
@@ -683,6 +714,9 @@ def run(ctx: Ctx) -> int:
                # two TYPE_CHECKING imports: a subclass can be created (and post-processed) before its base
                threading.Thread(target=tlc_cases, args=(ctx, "late", 3, ["absent", "doc"], results),
                                 kwargs={"workers": 2, "key": "late2", "late_backs": "two"})]
+    # @implementer classes in the docstring-inheritance universe; the last of 5 classes post-processed before its bases
+    threads.append(threading.Thread(target=tlc_cases, args=(ctx, "zope", 3, docstates, results), kwargs={"workers": 1}))
+    threads.append(threading.Thread(target=tlc_cases, args=(ctx, "split", 5, docstates, results), kwargs={"workers": 3}))
     if not ctx.quick:
         threads.append(threading.Thread(target=tlc_cases, args=(ctx, "late", 4, ["absent", "doc"], results),
                                         kwargs={"workers": 4, "key": "late4", "late_orders": "two"}))
@@ -714,6 +748,15 @@ def run(ctx: Ctx) -> int:
         late += late4
     for g in late:
         g["layout"] = {"kind": "late"}
+    zope = sorted(results["zope"].printed, key=lambda r: json.dumps([r["bases"], r["member"], sorted(r["lay"]["impl"])]))
+    split = sorted(results["split"].printed, key=lambda r: json.dumps([r["bases"], r["lay"]["split"]]))
+    for g in split:
+        g["layout"] = {"kind": "split"}
+    if len(zope) != 10 * len(docstates) ** 3 * 8:
+        raise MachineryError(f"TLC emitted {len(zope)} zope cases, expected {10 * len(docstates) ** 3 * 8}")
+    want_split = sum(max(r["bases"][4], default=0) for r in enum)      # split points below the highest base of class 5
+    if len(split) != want_split:
+        raise MachineryError(f"TLC emitted {len(split)} split cases, expected {want_split}")
     want = {"enum": 10400, "members": 160 * len(docstates) ** 4, "graph": 125, "late": len(late)}
     for name, recs in (("enum", enum), ("members", members), ("graph", graph), ("late", late)):
         if len(recs) != want[name]:
@@ -749,14 +792,15 @@ def run(ctx: Ctx) -> int:
     m_nested = [dict(r, early="nested") for r in members]
     l_alias = [dict(r, early="alias") for r in late]
     l_nested = [dict(r, early="nested") for r in late]
-    all_cases = enum + members + graph + file_cases + file_graphs + m_alias + m_nested + l_alias + l_nested
+    all_cases = enum + members + graph + file_cases + file_graphs + m_alias + m_nested + l_alias + l_nested + zope + split
     origins = (["enum"] * len(enum) + ["members"] * len(members) + ["graph"] * len(graph)
                + ["modules"] * len(file_cases) + ["graph-random"] * len(file_graphs)
                + ["members-alias"] * len(m_alias) + ["members-nested"] * len(m_nested)
-               + ["late-alias"] * len(l_alias) + ["late-nested"] * len(l_nested))
+               + ["late-alias"] * len(l_alias) + ["late-nested"] * len(l_nested)
+               + ["zope"] * len(zope) + ["split"] * len(split))
     # ---- the spec's reference against CPython (machinery)
-    quirk = cross_check_cpython(ctx, enum + members + file_cases + late)
-    ctx.extra["cpython_type_cross_checked_cases"] = len(enum) + len(members) + len(file_cases) + len(late)
+    quirk = cross_check_cpython(ctx, enum + members + file_cases + late + zope + split)
+    ctx.extra["cpython_type_cross_checked_cases"] = len(enum) + len(members) + len(file_cases) + len(late) + len(zope) + len(split)
     ctx.extra["inspect_getdoc_differs_from_mro_lookup"] = quirk
     if file_cases:
         ctx.extra["multi_module_programs_imported_by_cpython"] = cpython_import_check(
